@@ -57,6 +57,9 @@ pub struct Task {
     // lifecycle hooks
     hooks: ShareLock<HashMap<TaskLifeCycle, Vec<StatementBatch>>>,
 
+    // the state that has been emitted last, a completion is only emitted once
+    emitted: ShareLock<TaskState>,
+
     runtime: Arc<Runtime>,
     // sync: Arc<std::sync::Mutex<usize>>,
 }
@@ -77,6 +80,7 @@ impl Task {
             proc: proc.clone(),
 
             hooks: Arc::new(RwLock::new(HashMap::new())),
+            emitted: Arc::new(RwLock::new(TaskState::None)),
             runtime: rt.clone(),
             // sync: Arc::new(std::sync::Mutex::new(0)),
         }
@@ -116,6 +120,14 @@ impl Task {
         }
 
         0
+    }
+
+    pub(crate) fn is_emitted(&self) -> bool {
+        *self.emitted.read().unwrap() == self.state()
+    }
+
+    pub(crate) fn set_emitted(&self) {
+        *self.emitted.write().unwrap() = self.state();
     }
 
     pub fn is_emit_disabled(&self) -> bool {
@@ -921,7 +933,8 @@ impl ActTask for Arc<Task> {
             };
         }
         debug!("is_next:{} task={:?}", is_next, ctx.task());
-        if self.state().is_completed() {
+        // a child that is resumed above can complete this task (and emit it) in a nested review
+        if self.state().is_completed() && !self.is_emitted() {
             self.update_data(&ctx.vars());
             ctx.emit_task(self)?;
 
@@ -956,7 +969,7 @@ impl ActTask for Arc<Task> {
         };
 
         debug!("is_review:{} task={:?}", is_review, ctx.task());
-        if self.state().is_completed() && before_state != self.state() {
+        if self.state().is_completed() && before_state != self.state() && !self.is_emitted() {
             ctx.emit_task(self)?;
         }
 
